@@ -127,6 +127,11 @@ func RunWorker(id, tier string, base int64, shard, of int, out string) int {
 		ctx := &CaseCtx{Prop: id, Idx: idx, Seed: CaseSeed(base, id, idx), Base: base, Tier: tier, TmpDir: tmp}
 		res := c.RunCase(ctx)
 		res.Idx = idx
+		if os.Getenv("PXV_LEAKDEBUG") != "" {
+			buf := make([]byte, 64<<20)
+			nb := runtime.Stack(buf, true)
+			fmt.Fprintf(os.Stderr, "LEAKDEBUG idx=%d parked=%d\n", idx, strings.Count(string(buf[:nb]), "(*Gates).wait("))
+		}
 		if err := enc.Encode(res); err != nil {
 			fmt.Fprintln(os.Stderr, "encode:", err)
 			return 2
